@@ -168,9 +168,9 @@ package core
 // what is pending is always a lone final state (a running state is listed at once, a second state settles the object)
 //@   loop 1 invariant [pending-are-lone-final-states] forall k string :: has(states, k) ==> states[k].count == 1 && states[k].isFinal
 //@   loop 2 invariant [pending-are-lone-final-states] forall k string :: has(states, k) ==> states[k].count == 1 && states[k].isFinal
-//@   loop 2 step [a-final-state-seen-earlier-wins] erp == nil && (apc.SplitID != "" || apc.DiamondID != "") && prev(has(states, apc.DiamondID + apc.SplitID)) && prev(states[apc.DiamondID + apc.SplitID].isFinal) && !apc.IsFinalState ==> len(filtered) == prev(len(filtered)) + 1 && filtered[len(filtered)-1] == prev(states[apc.DiamondID + apc.SplitID].key)
-//@   loop 2 step [a-lone-final-state-waits-for-its-twin] erp == nil && (apc.SplitID != "" || apc.DiamondID != "") && !prev(has(states, apc.DiamondID + apc.SplitID)) && apc.IsFinalState ==> len(filtered) == prev(len(filtered)) && has(states, apc.DiamondID + apc.SplitID) && states[apc.DiamondID + apc.SplitID].isFinal && states[apc.DiamondID + apc.SplitID].key == key
-//@   loop 2 step [a-running-state-alone-is-listed] erp == nil && (apc.SplitID != "" || apc.DiamondID != "") && !prev(has(states, apc.DiamondID + apc.SplitID)) && !apc.IsFinalState ==> len(filtered) == prev(len(filtered)) + 1 && filtered[len(filtered)-1] == key && !has(states, apc.DiamondID + apc.SplitID)
+//@   loop 2 step [a-final-state-seen-earlier-wins] erp == nil && (apc.SplitID != "" || apc.DiamondID != "") && prev(has(states, cur(apc.DiamondID + apc.SplitID))) && prev(states[cur(apc.DiamondID + apc.SplitID)].isFinal) && !apc.IsFinalState ==> len(filtered) == prev(len(filtered)) + 1 && filtered[len(filtered)-1] == prev(states[cur(apc.DiamondID + apc.SplitID)].key)
+//@   loop 2 step [a-lone-final-state-waits-for-its-twin] erp == nil && (apc.SplitID != "" || apc.DiamondID != "") && !prev(has(states, cur(apc.DiamondID + apc.SplitID))) && apc.IsFinalState ==> len(filtered) == prev(len(filtered)) && has(states, apc.DiamondID + apc.SplitID) && states[apc.DiamondID + apc.SplitID].isFinal && states[apc.DiamondID + apc.SplitID].key == key
+//@   loop 2 step [a-running-state-alone-is-listed] erp == nil && (apc.SplitID != "" || apc.DiamondID != "") && !prev(has(states, cur(apc.DiamondID + apc.SplitID))) && !apc.IsFinalState ==> len(filtered) == prev(len(filtered)) + 1 && filtered[len(filtered)-1] == key && !has(states, apc.DiamondID + apc.SplitID)
 //@   loop 2 step [other-objects-stay-pending] forall k string :: k != apc.DiamondID + apc.SplitID && prev(has(states, k)) ==> has(states, k) && states[k] == prev(states[k])
 //@   only append 1
 //@   only delete 1
